@@ -273,6 +273,12 @@ func ephemerisLemmas(c *Ctx, r *Report, rule string) lemmaSet {
 			if helper != nil {
 				ls["scanhelper|"+t[0]+"|"+t[1]] = fname(helper)
 			}
+		} else if t[0] == "ShouXingUtil.dtCalc" && dtCalcWalkOK(c) {
+			// the scan is not written in the recognised form (its reads may sit in a function literal), but the function
+			// looks at the year only through comparisons with knots, and it was followed for every ordering of the year
+			// against them (R03.9): every read stayed inside the table
+			r.ok(rule, construct, c.fnPos(fn), "not in the recognised form ("+why+"); followed for a year below the first knot, on each knot, between each two and beyond the last (R03.9): no read outside the table").Class = "TABLE"
+			ls["walk|"+t[0]+"|"+t[1]] = "ok"
 		} else {
 			r.bad(rule, construct, c.fnPos(fn), "the scan over the breakpoint table is not (recognisably) protected by a comparison with its last breakpoint: "+why)
 		}
@@ -365,6 +371,15 @@ func lemmaClass(c *Ctx, r *Report, s tableSite, ls lemmaSet) string {
 			}
 		}
 	}
+	{
+		top := s.fn
+		for top.Parent() != nil {
+			top = top.Parent()
+		}
+		if _, ok := ls["walk|"+fname(top)+"|"+s.table]; ok && s.kind == "index" {
+			return "PROVEN-UNDER(R03.9 walk: the function was followed for every ordering of the year against the knots and read only inside the table)"
+		}
+	}
 	if v, ok := ls["scan|"+fn+"|"+s.table]; ok && s.kind == "index" {
 		var stride, sentinel int64
 		fmt.Sscanf(strings.Replace(v, "|", " ", 1), "%d %d", &stride, &sentinel)
@@ -401,4 +416,14 @@ func lemmaClass(c *Ctx, r *Report, s tableSite, ls lemmaSet) string {
 		}
 	}
 	return ""
+}
+
+// dtCalcWalkOK: R03.9's walk of dtCalc over every ordering of the year against the knots (run once per tree).
+func dtCalcWalkOK(c *Ctx) bool {
+	if !c.dtCalcRun {
+		if fn := c.FuncBy["ShouXingUtil.dtCalc"]; fn != nil {
+			dtCalcTable(c, newReport("C03"), "R03.9", fn)
+		}
+	}
+	return c.dtCalcOK
 }
